@@ -120,8 +120,13 @@ def run_op(case, paths, outdir):
         return [(nm, eff, cps, nbits, "fil") for nm in names]
     if op == "block_to_file":
         blk = rd.read_block(start, eff)
+        if p % 2:
+            blk = blk.dedisperse(12.5)  # a block as the library hands it out after dedispersion: it carries a DM
         return [(blk.to_file(o("blk.fil")), eff, nch, 32, "fil")]
     if op == "ts_to_tim":
+        if p % 2 and nch > 1:
+            ts = rd.dedisperse(0.01, **kw)  # a dedispersed series (carries a DM; 0.01 moves no channel by a sample here)
+            return [(ts.to_tim(o("t.tim")), ts.data.size, 1, 32, "tim")]
         ts = rd.collapse(**kw)
         return [(ts.to_tim(o("t.tim")), eff, 1, 32, "tim")]
     raise AssertionError(op)
